@@ -47,6 +47,14 @@ def extraToks (g : Grammar) : List Tok :=
 def InLang (g : Grammar) (w : List Tok) : Prop :=
   DerivesTok g (.sym g.start) (w.filter fun t => !(extraToks g).contains t)
 
+instance : LawfulBEq Tok where
+  eq_of_beq {a b} h := by
+    have : decide (a = b) = true := h
+    exact of_decide_eq_true this
+  rfl {a} := by
+    show decide (a = a) = true
+    exact decide_eq_true rfl
+
 /-! ## The enumerator -/
 
 abbrev Env := List (String × List (List Tok))
@@ -96,6 +104,14 @@ def enumFix (g : Grammar) (L : Nat) : Nat → Nat → Env → Env × Bool
   | cap + 1, k, env =>
     let env' := enumStep g L env
     if envSize env' == envSize env && k > 0 then (env', true) else enumFix g L cap (k + 1) env'
+
+/-- The oracle the driver uses: the strings (length ≤ L, extras removed) derivable from the start rule,
+and whether the iteration reached a fixpoint. -/
+def oracleList (g : Grammar) (L : Nat) : List (List Tok) × Bool :=
+  let r := enumFix g L (6 * L + 2 * g.rules.length + 8) 0 []
+  (r.1.get g.start, r.2)
+
+def stripExtras (g : Grammar) (w : List Tok) : List Tok := w.filter fun t => !(extraToks g).contains t
 
 /-- every terminal of the grammar is an anonymous string or a whole-rule token -/
 def simpleRule : Rule → Bool
